@@ -103,11 +103,15 @@ def d2(rep, f, c):
             rep.undecidable('C16-D2', fn, 'function not found in configuration', None, c)
             continue
         preds = scalar_predicates(f, b)
+        if '{closure#' not in fn:
+            # a test moved into a closure (`buffer.iter().position(|u| *u >= 0x100)`) is still this function's test
+            for cname, cb in sorted(f.bodies.items()):
+                if cname.startswith(fn + '::{closure#') and (fn + '::' + cname[len(fn) + 2:].split('::')[0]) not in table:
+                    preds = preds + scalar_predicates(f, cb)
         found = []
         for p in preds:
             if p['bits'] > 16:
                 continue
-            lt = expr_str(p['leaf'], b)
             cs = canon(p['true_set'], p['N'])
             if cs is None:
                 rep.undecidable('C16-D2', fn, 'comparison on a unit could not be decided', p['at'], c)
@@ -132,7 +136,8 @@ def d2(rep, f, c):
                 if e == ('loc', 0):
                     ds = b.defs.get(0, [])
                     e = r.rvalue(ds[0][3]['rv']) if len(ds) == 1 else e
-                ok = e[0] == 'bin' and e[1] == 'BitOr' and {e[2], e[3]} == {('loc', 2), ('loc', 3)}
+                und = lambda x: x[1] if x[0] == 'deref' else x       # fold(0, |acc, unit| acc | *unit) passes the element by reference
+                ok = e[0] == 'bin' and e[1] == 'BitOr' and {und(e[2]), und(e[3])} == {('loc', 2), ('loc', 3)}
                 rep.ob('C16-D2.reducer', name, ok, 'tail reducer is not a | b: %s' % expr_str(e, b), sp_str(b.raw['span']),
                        {'reducer': expr_str(e, b)}, c)
 
@@ -141,11 +146,17 @@ def call_expr(e, fn):
     return e[0] == 'call' and e[1] == fn
 
 
-def d3_two_stage(rep, f, c, fn, scan, bidi):
-    b = f.body(fn)
+def d3_two_stage(rep, f, c, fn, scan, bidi, b=None, scan_name=None):
+    """`scan` is the name of the first-non-Latin1 scanner, or a predicate on call expressions (for `iter().position(closure)`)"""
+    b = b or f.body(fn)
     if b is None:
         rep.undecidable('C16-D3', fn, 'function not found', None, c)
         return
+    if callable(scan):
+        is_scan = scan
+        scan = scan_name
+    else:
+        is_scan = lambda e, _s=scan: call_expr(e, _s) and strip_ref(e[2][0]) == ('loc', 1)
     site = sp_str(b.raw['span'])
     r = Resolver(b)
     rv = ret_variant_blocks(b, 'mem::Latin1Bidi')
@@ -156,7 +167,7 @@ def d3_two_stage(rep, f, c, fn, scan, bidi):
             rep.ob('C16-D3', '%s:%s' % (fn, var), False, 'expected exactly one construction of %s' % var, site, None, c)
             continue
         conds = block_conditions(b, blks[0][0], r)
-        ok_arm = any(k == 'variant' and call_expr(e, scan) and strip_ref(e[2][0]) == ('loc', 1) and v == arm
+        ok_arm = any(k == 'variant' and is_scan(e) and v == arm
                      for k, e, v, S in conds)
         ok_bidi = True
         if truth is not None:
@@ -169,7 +180,7 @@ def d3_two_stage(rep, f, c, fn, scan, bidi):
                         base, rng = strip_ref(arg[2][0]), arg[2][1]
                         if base == ('loc', 1) and rng[0] == 'agg' and 'RangeFrom' in rng[1]:
                             off = rng[2][0]
-                            if off[0] == 'fld' and off[1][0] == 'as' and off[1][2] == 'Some' and call_expr(off[1][1], scan):
+                            if off[0] == 'fld' and off[1][0] == 'as' and off[1][2] == 'Some' and is_scan(off[1][1]):
                                 ok_bidi = True
         rep.ob('C16-D3', '%s:%s' % (fn, var), ok_arm and ok_bidi,
                '%s is not returned exactly under %s(%s)=%s%s' % (var, scan, 'buffer', arm,
@@ -189,6 +200,29 @@ def d3_utf16(rep, f, c):
         return
     site = sp_str(b.raw['span'])
     r = Resolver(b)
+    pos_calls = [bi for bi, t in b.calls() if (b.callee(t) or '').endswith('::position')]
+    if pos_calls and not [bi for bi, t in b.calls() if (b.callee(t) or '').endswith('::next')]:
+        # two-stage form: buffer.iter().position(|u| *u >= 0x100), then the bidi check of the rest
+        def is_pos_scan(e):
+            if not (e[0] == 'call' and (e[1] or '').endswith('::position') and len(e[2]) == 2):
+                return False
+            roots = r_kernel.iter_roots(e[2][0])
+            if roots != [('arg', 1)]:
+                return False
+            # the closure's predicate: true exactly for the units that are not Latin1
+            for cname, cb in f.bodies.items():
+                if cname.startswith(fn + '::{closure#') and cb.arg_count == 2:
+                    ra = RangeAnalysis(f, cb, {('deref', ('loc', 2)), ('loc', 2)}, 16, ISet.of((0, 0xFFFF)))
+                    if ra.mixed:
+                        continue
+                    ts, fs, us = ra.return_value().truth_set()
+                    if not us and ts == ISet.of((0x100, 0xFFFF)):
+                        return True
+            return False
+        rep.ob('C16-D3', fn + ':latin1-tests', any(is_pos_scan(Resolver(b).call(b.blocks[bi]['t'], bi, 0)) for bi in pos_calls),
+               'the position() predicate is not exactly "unit >= 0x100" over the whole buffer', site, {'form': 'position + bidi check of the rest'}, c)
+        d3_two_stage(rep, f, c, fn, is_pos_scan, 'mem::is_utf16_bidi_impl', b=b, scan_name='position(|u| u >= 0x100)')
+        return
     rv = ret_variant_blocks(b, 'mem::Latin1Bidi')
     # blocks where a unit (or half stride) is known to be non-Latin1
     nonlatin_targets = []
